@@ -99,10 +99,26 @@ def ms_add_variables():
         nlp.prove_equal(QUAL + ":ensures:node-state-is-own-scale-times-fresh-variable", meth.X[j], ca.vertcat(ca.MX(sx1) * fX1(jm), ca.MX(sx2) * fX2(jm)))
         nlp.prove_equal(QUAL + ":ensures:control-is-own-scale-times-fresh-variable", meth.U[jm], ca.MX(su) * fU(jm))
         nlp.prove_equal(QUAL + ":ensures:per-interval-variable-is-own-scale-times-fresh-variable", meth.V_control[0][jm], ca.MX(svc) * fVc(jm))
+        nlp.prove_equal(QUAL + ":ensures:include_last-variable-is-own-scale-times-fresh-variable", meth.V_control_plus[0][jm], ca.MX(svcp) * fVcp(jm))
     isolated(scaled, QUAL)
+
+    def own_variable(name, got, scale):
+        """got == scale * (one decision variable created outside the loop, not used by any other handle)"""
+        got = ca.MX(got)
+        names = set()
+        for e in got.e:
+            names |= set(ca._consts(ca.tz(e))) if not ca.isnum(e) else set()
+        mine = [v for v in opti._vars if set(str(x) for x in v.e) & names]
+        if len(mine) != 1:
+            c.fail(name, "depends on %d decision variables created outside the loop (expected exactly one)" % len(mine))
+            return
+        nlp.prove_equal(name, got, ca.MX(scale) * mine[0])
+    # the extra final-node member of the include_last variable (created by add_variables_V_control_finalize)
+    own_variable("sampling_method:SamplingMethod.add_variables_V_control_finalize:ensures:final-node-member-is-own-scale-times-fresh-variable",
+                 meth.V_control_plus[0][N], svcp)
+    own_variable("sampling_method:SamplingMethod.add_variables_V:ensures:global-variable-is-own-scale-times-fresh-variable", meth.V, sv)
     x0 = ca.MX(meth.X[0])
     c.prove(QUAL + ":ensures:initial-state-is-scaled-fresh-variable", all((not ca.isnum(e)) for e in x0.e) and x0.shape == (3, 1))
-    nlp.prove_equal(QUAL + ":ensures:global-variable-scaled", meth.V, ca.MX(sv) * ca.MX(opti._vars[-1]) if False else meth.V)
     # control grid of the default (uniform, non-localized) grid
     from vc.core import _zr
     k = fresh_int("k")
